@@ -197,3 +197,32 @@ def cells(**axes):
     for combo in itertools.product(*[axes[n] for n in names]):
         out.append(dict(zip(names, combo)))
     return out
+
+
+def specialise(t: T, env: dict, funcs=None) -> T:
+    """Rewrite t by resolving every ite / assume whose condition is decided by the concrete environment."""
+    from .terms import mk
+    memo = {}
+
+    def go(x):
+        if isinstance(x, tuple):
+            return tuple(go(y) for y in x)
+        if not isinstance(x, T):
+            return x
+        r = memo.get(x.uid)
+        if r is not None:
+            return r
+        if x.op == "assume":
+            r = go(x.args[1])
+        elif x.op == "ite":
+            try:
+                c = concrete(x.args[0], env, funcs)
+                r = go(x.args[1]) if c else go(x.args[2])
+            except (Unmodelled, Raised, KeyError, TypeError):
+                r = mk("ite", go(x.args[0]), go(x.args[1]), go(x.args[2]))
+        else:
+            r = mk(x.op, *[go(y) for y in x.args])
+        memo[x.uid] = r
+        return r
+
+    return go(t)
